@@ -10,7 +10,7 @@ from __future__ import annotations
 import ast
 from ..model import qual
 from ..attrs import Typestate, NONE, NOTNONE, UNKNOWN, abstract_of
-from .common import struct_ob
+from .common import struct_ob, U
 from . import mcmc
 from ..report import AnalysisError
 
@@ -78,16 +78,16 @@ def str_keys_read(fn, dname="D"):
     self_guards = set()
     for n in ast.walk(fn):
         if isinstance(n, ast.Compare) and len(n.ops) == 1 and isinstance(n.ops[0], ast.In) \
-                and ast.unparse(n.comparators[0]) == dname and isinstance(n.left, ast.Name):
+                and U(n.comparators[0]) == dname and isinstance(n.left, ast.Name):
             for g in ast.walk(fn):
-                if isinstance(g, ast.comprehension) and ast.unparse(g.target) == n.left.id and isinstance(g.iter, ast.List):
+                if isinstance(g, ast.comprehension) and U(g.target) == n.left.id and isinstance(g.iter, ast.List):
                     for e in g.iter.elts:
                         if isinstance(e, ast.Constant):
                             self_guards.add(e.value)
 
     def guard_key(test):
         if isinstance(test, ast.Compare) and len(test.ops) == 1 and isinstance(test.ops[0], ast.In) \
-                and ast.unparse(test.comparators[0]) == dname and isinstance(test.left, ast.Constant):
+                and U(test.comparators[0]) == dname and isinstance(test.left, ast.Constant):
             return test.left.value
         return None
 
@@ -104,7 +104,7 @@ def str_keys_read(fn, dname="D"):
             visit(node.body, k or g)
             visit(node.orelse, g)
             return
-        if isinstance(node, ast.Subscript) and ast.unparse(node.value) == dname and isinstance(node.slice, ast.Constant) \
+        if isinstance(node, ast.Subscript) and U(node.value) == dname and isinstance(node.slice, ast.Constant) \
                 and isinstance(node.slice.value, str):
             key = node.slice.value
             if g is not None:
@@ -156,8 +156,8 @@ def keys_written(prog, ci, fn):
                 else:
                     _call_items(a, cond)
             elif isinstance(st, ast.If):
-                visit(st.body, ast.unparse(st.test))
-                visit(st.orelse, "not " + ast.unparse(st.test))
+                visit(st.body, U(st.test))
+                visit(st.orelse, "not " + U(st.test))
             elif isinstance(st, ast.For):
                 # per-parameter items: handled by the Parameter pair
                 visit_for(st, cond)
@@ -169,11 +169,11 @@ def keys_written(prog, ci, fn):
 
     def _call_items(call, cond):
         if isinstance(call, ast.Call) and isinstance(call.func, ast.Attribute) and call.func.attr == "get_items":
-            recv = ast.unparse(call.func.value)
+            recv = U(call.func.value)
             if recv == f"{selfname}.ES":
                 es = prog.cls("EpsilonSelector")
                 gi = es.methods.get("get_items")
-                if gi is not None and "__dict__" in ast.unparse(gi):
+                if gi is not None and "__dict__" in U(gi):
                     for a in prog.attrs_assigned_in(es.methods["__init__"]):
                         (sometimes if cond else always).add(a)
                         values[a] = ast.parse(f"self.ES.{a}", mode="eval").body
@@ -202,8 +202,8 @@ def param_key_suffixes(prog):
                 and isinstance(n.slice.right, ast.Constant):
             read[n.slice.right.value] = n.lineno
     # prefix agreement: f"param_{param_id}" in both
-    pre_w = [ast.unparse(s.value) for s in gi.body if isinstance(s, ast.Assign) and ast.unparse(s.targets[0]) == "i"]
-    pre_r = [ast.unparse(s.value) for s in ld.body if isinstance(s, ast.Assign) and ast.unparse(s.targets[0]) == "i"]
+    pre_w = [U(s.value) for s in gi.body if isinstance(s, ast.Assign) and U(s.targets[0]) == "i"]
+    pre_r = [U(s.value) for s in ld.body if isinstance(s, ast.Assign) and U(s.targets[0]) == "i"]
     return written, wvals, read, pre_w, pre_r, pc, gi, ld
 
 
@@ -225,14 +225,14 @@ def run(prog, tier):
     restored = set()
     var = None
     for st in ld.body:
-        if isinstance(st, ast.Assign) and isinstance(st.value, ast.Call) and ast.unparse(st.value.func) == ld.args.args[0].arg:
+        if isinstance(st, ast.Assign) and isinstance(st.value, ast.Call) and U(st.value.func) == ld.args.args[0].arg:
             var = st.targets[0].id
     for st in ast.walk(ld):
         if isinstance(st, ast.Assign):
             for t in st.targets:
                 if isinstance(t, ast.Attribute) and isinstance(t.value, ast.Name) and t.value.id == var:
                     restored.add(t.attr)
-    saved_attrs = {ast.unparse(v).split(".", 1)[1] for v in wvals.values() if ast.unparse(v).startswith("self.")}
+    saved_attrs = {U(v).split(".", 1)[1] for v in wvals.values() if U(v).startswith("self.")}
     lost = sorted(a for a in pwrites if a not in saved_attrs or a not in restored)
     obs.append(struct_ob("state-persisted", qual(pc, gi), not lost,
                          f"Parameter attributes mutated by stepping but not saved+restored: {lost}", rel, gi.lineno,
@@ -317,7 +317,7 @@ def run(prog, tier):
             dropped = []
             for k in call.keywords:
                 keys = [n.slice.value for n in ast.walk(k.value) if isinstance(n, ast.Subscript)
-                        and ast.unparse(n.value) == "D" and isinstance(n.slice, ast.Constant)]
+                        and U(n.value) == "D" and isinstance(n.slice, ast.Constant)]
                 if keys and k.arg not in A_load.used_params:
                     dropped.append((k.arg, keys))
             # keys read into locals that never reach the object
@@ -336,7 +336,7 @@ def run(prog, tier):
                 if isinstance(st, ast.Assign) and len(st.targets) == 1 and isinstance(st.targets[0], ast.Attribute) \
                         and isinstance(st.targets[0].value, ast.Name) and st.targets[0].value.id == var:
                     keys = {n.slice.value for n in ast.walk(st.value) if isinstance(n, ast.Subscript)
-                            and ast.unparse(n.value) == "D" and isinstance(n.slice, ast.Constant)}
+                            and U(n.value) == "D" and isinstance(n.slice, ast.Constant)}
                     if len(keys) != 1:
                         continue
                     k = keys.pop()
@@ -361,12 +361,12 @@ def run(prog, tier):
             aliases = {}
             for st_ in lfn.body:
                 if isinstance(st_, ast.Assign) and isinstance(st_.targets[0], ast.Name) and isinstance(st_.value, ast.Subscript) \
-                        and ast.unparse(st_.value.value) == "D" and isinstance(st_.value.slice, ast.Constant):
+                        and U(st_.value.value) == "D" and isinstance(st_.value.slice, ast.Constant):
                     aliases[st_.targets[0].id] = st_.value.slice.value
             bad, n_rt = [], 0
             for st_ in ast.walk(lfn):
                 if not (isinstance(st_, ast.Assign) and isinstance(st_.value, ast.ListComp)
-                        and isinstance(st_.targets[0], ast.Attribute) and ast.unparse(st_.targets[0].value) == var):
+                        and isinstance(st_.targets[0], ast.Attribute) and U(st_.targets[0].value) == var):
                     continue
                 lcomp = st_.value
                 g = lcomp.generators[0]
@@ -375,26 +375,26 @@ def run(prog, tier):
                     continue
                 base = elt.value
                 key = None
-                if isinstance(base, ast.Subscript) and ast.unparse(base.value) == "D" and isinstance(base.slice, ast.Constant):
+                if isinstance(base, ast.Subscript) and U(base.value) == "D" and isinstance(base.slice, ast.Constant):
                     key = base.slice.value
                 elif isinstance(base, ast.Name) and base.id in aliases:
                     key = aliases[base.id]
                 if key is None or key not in values_:
                     continue
                 saved = values_[key]
-                stacked = (isinstance(saved, ast.Call) and ast.unparse(saved.func) == "array") or \
-                    ast.unparse(saved) == f"self.{st_.targets[0].attr}"
+                stacked = (isinstance(saved, ast.Call) and U(saved.func) == "array") or \
+                    U(saved) == f"self.{st_.targets[0].attr}"
                 if not stacked:
                     continue
                 n_rt += 1
                 idx = elt.slice.elts if isinstance(elt.slice, ast.Tuple) else [elt.slice]
-                tvar = ast.unparse(g.target)
-                first_ok = ast.unparse(idx[0]) == tvar and all(
+                tvar = U(g.target)
+                first_ok = U(idx[0]) == tvar and all(
                     isinstance(x, ast.Slice) and x.lower is None and x.upper is None and x.step is None for x in idx[1:])
-                rng_ok = ast.unparse(g.iter) in (f"range({ast.unparse(base)}.shape[0])", f"range(len({ast.unparse(base)}))")
+                rng_ok = U(g.iter) in (f"range({U(base)}.shape[0])", f"range(len({U(base)}))")
                 if not (first_ok and rng_ok):
-                    bad.append(f"{var}.{st_.targets[0].attr} <- `{ast.unparse(lcomp)}` but save stacked the list along axis 0 "
-                               f"(`{ast.unparse(saved)}`): element i must be row i, i in range(shape[0])")
+                    bad.append(f"{var}.{st_.targets[0].attr} <- `{U(lcomp)}` but save stacked the list along axis 0 "
+                               f"(`{U(saved)}`): element i must be row i, i in range(shape[0])")
             if n_rt:
                 obs.append(struct_ob("stack-roundtrip", qual(lc, lfn), not bad, "; ".join(bad), rel, lfn.lineno,
                                      slots={"lists_checked": n_rt}))
@@ -409,14 +409,14 @@ def run(prog, tier):
                 if isinstance(n, ast.Attribute) and isinstance(n.value, ast.Name) and n.value.id == "self":
                     saved_attrs.add(n.attr)
         # the parameter objects and the epsilon selector are persisted through their own pairs
-        text = ast.unparse(sfn)
+        text = U(sfn)
         if "get_items(param_id" in text:
             saved_attrs.add("params")
         if "self.ES.get_items()" in text:
             saved_attrs.add("ES")
         restored = definite | guarded_l | {a for a in A_load.assigned if a in A_load.used_params or True}
         restored_by_load = definite | guarded_l
-        if "load_items" in ast.unparse(lfn):
+        if "load_items" in U(lfn):
             restored_by_load = restored_by_load | {"ES"}
         # restored = assigned inside load (from the file), not merely defaulted by the constructor
         derived = set()      # recomputed by load from restored attributes of the same object
